@@ -131,6 +131,31 @@ func shouldEscapeTextNode(data string) bool {
 	return strings.ContainsAny(data, "<>&\"'")
 }
 
+// renderDoctype renders a doctype declaration, including legacy public/system identifiers.
+func renderDoctype(node *html.Node) string {
+	var sb strings.Builder
+	sb.WriteString("<!DOCTYPE ")
+	sb.WriteString(node.Data)
+	public := helpers.GetAttr(node, "public")
+	system := helpers.GetAttr(node, "system")
+	quote := func(s string) string {
+		if strings.Contains(s, `"`) {
+			return "'" + s + "'"
+		}
+		return `"` + s + `"`
+	}
+	if helpers.HasAttr(node, "public") {
+		sb.WriteString(" PUBLIC " + quote(public))
+		if helpers.HasAttr(node, "system") {
+			sb.WriteString(" " + quote(system))
+		}
+	} else if helpers.HasAttr(node, "system") {
+		sb.WriteString(" SYSTEM " + quote(system))
+	}
+	sb.WriteString(">\n")
+	return sb.String()
+}
+
 func renderNode(w io.Writer, node *html.Node, indent int) error {
 	ctx := VueContext{}
 	return renderNodeWithContext(ctx, w, node, indent)
@@ -138,6 +163,11 @@ func renderNode(w io.Writer, node *html.Node, indent int) error {
 
 func renderNodeWithContext(ctx VueContext, w io.Writer, node *html.Node, indent int) error {
 	switch node.Type {
+	case html.DoctypeNode:
+		if _, err := w.Write([]byte(renderDoctype(node))); err != nil {
+			return err
+		}
+
 	case html.TextNode:
 		if strings.TrimSpace(node.Data) == "" {
 			return nil
